@@ -6,8 +6,12 @@ def _fmm_objects():
         objs.append(("h_fmm_tu.cpp", ["VH_DIM=%d" % d, "VH_PER=%d" % p], "d%d_%d" % (d, p)))
     return objs
 
+def _tree_objects():
+    return [("h_tree_main.cpp", [], "main")] + [("h_tree_tu.cpp", ["VH_FL=%d" % f], "f%d" % f) for f in range(1, 11)]
+
 BINARIES = {
-    "h_fmm": {"flavour": "asan", "objects": _fmm_objects()},
+    "h_fmm": {"flavour": "asan", "objects": _fmm_objects(), "about": "sequential executors + probe kernels on single trees, Dim 1..4, Morton and periodic Morton"},
+    "h_tree": {"flavour": "asan", "objects": _tree_objects(), "about": "tree construction / structure / lookup / export / rebuild over 10 template flavours (Dim 1..4, float/double, data type != real type, 0..4 rhs, periodic ordering, target/source trees)"},
 }
 
 EXPL = "exploration"
@@ -52,6 +56,57 @@ CHECKS = {
         "jobs": [{"bin": "h_fmm", "mode": "c12"}],
         "rule": "cases cycle through three history families on random trees: single flags (6 runs), staged histories (quick 24 sampled incl. the documented split; thorough all %d), upper levels 0..height (height+1 runs with P-rec + P-set model). non-trivial = tree with >= 2 particles / far or near interactions / height >= 3 respectively; distinct = family + input signature.",
         "require_events": ["single-flag-runs", "staged-histories", "upper-level-runs"],
+        "assumptions": [],
+    },
+    "C06": {
+        "level": EXPL,
+        "technique": "runtime monitoring: structural invariant walk over the freshly built tree (applyToAllLeaves/Cells) against the input array and the coordinate model; byte hash of symbolic buffers around execute()",
+        "claim": "On every explored input each particle was stored exactly once, in a leaf whose closed box contains it (exactly the expected leaf on dyadic inputs, upper face -> last cell), with its original index and bit-identical data; results and expansions started at zero; execute() left all symbolic buffers byte-identical.",
+        "note": "Containment tolerates 4 ulp at leaf faces (either side is legitimate there); exact leaf required when positions and box are dyadic. Morton index<->coordinate checked against the model's encode.",
+        "jobs": [{"bin": "h_tree", "mode": "c06"}],
+        "rule": "cases = random inputs over 10 tree flavours (Dim 1..4, float/double coordinates, data type different from coordinate type both ways, 1..7 data values, 0..4 result values, periodic ordering) x 8 distributions (uniform, clustered, lattice, cell faces, nextafter neighbours of faces, coincident, single leaf, box faces/corners) + exact-lattice inputs with exactly known leaves x random box geometries, heights, block sizes (incl. automatic), both modes; every 4th case builds target/source trees. non-trivial = N >= 2; distinct = (flavour,height,block size,mode,N,#leaves,occupancy hash).",
+        "require_events": ["particles-checked", "cells-checked", "executions"],
+        "assumptions": ["inputs are filtered by the library's own precondition 0 <= fl(p-corner) <= width"],
+    },
+    "C07": {
+        "level": EXPL,
+        "technique": "runtime monitoring: structural invariant checker over getCellGroupsAtLevel/getParticleGroups against the coordinate model (ancestor closure), bounded-exhaustive small trees",
+        "claim": "Every explored tree had, at every level, non-empty groups with strictly increasing indices, header ranges equal to content, cells equal to the parents of the level below, leaf cell groups mirroring particle groups leaf by leaf with contiguous offsets, and no group above the block size (default mode) / parent groups covering exactly one child group's new parents (one-group-per-parent mode); also after rebuild and for both trees of the target/source variant.",
+        "note": "Trusted: the model's parent relation on coordinates. Exhaustive only inside the enumerated (Dim,height) slices.",
+        "jobs": [{"bin": "h_tree", "mode": "c07"}],
+        "rule": "cases = random inputs over the 10 flavours (every 4th: target/source trees; every 4th: checked again after rebuild) + every occupancy pattern of (Dim,height) in {(1,2..5),(2,2..3),(3,2)} (quick: sample of 800 for the two 16-leaf slices) x every block size 1..#leaves+1 x both modes. non-trivial = >= 2 particles / >= 2 occupied leaves; distinct = tree signature or (slice, mask).",
+        "require_events": ["structure-cells-checked", "trees", "rebuilt-trees", "tsm-trees"],
+        "exhaustive_thorough": False,
+        "assumptions": [],
+    },
+    "C13": {
+        "level": EXPL,
+        "technique": "runtime monitoring of move/rebuild/execute histories: rebuilt tree compared with a tree freshly built from the edited array (leaf per index, group layout, data bits, preserved results, zeroed expansions), exact kernels for the following execution",
+        "claim": "In every explored history the rebuilt tree equalled a fresh tree of the edited particles (same leaf per original index, same groups), kept every data value bit-for-bit and every result value, reset all expansions, satisfied the structural invariants, and the next execution added exactly one full interaction.",
+        "note": "Order of particles inside a leaf is not compared (the sort is not stable).",
+        "jobs": [{"bin": "h_tree", "mode": "c13"}],
+        "rule": "case = build, then 1..4 cycles of {write recognisable results and expansions, move a random subset in place (all / into one leaf / onto box faces and corners / onto cell faces), rebuild, compare with fresh tree, execute}; 10 tree flavours incl. data type != coordinate type and periodic ordering (h_tree, counting kernel) and P-poly trees Dim 1..4 (h_fmm: rhs == rhs_before + exact direct sum at the new positions). non-trivial = at least one particle moved and N >= 2; distinct = tree signature + cycles.",
+        "require_events": ["rebuild-cycles", "particles-moved", "leaf-changes"],
+        "assumptions": [],
+    },
+    "C16": {
+        "level": EXPL,
+        "technique": "runtime monitoring: differential oracle - every lookup compared with a brute-force scan of all groups",
+        "claim": "Every explored query (every index in [-2, upper bound+2] of every level of small trees; present, neighbouring, random and out-of-range indices on larger ones) returned a handle iff the cell/leaf exists, pointing at the right group and position; group-level first-child-of-parent and index lookups agreed with linear scans.",
+        "note": "Trusted: linear scans through the public group accessors.",
+        "jobs": [{"bin": "h_tree", "mode": "c16"}, {"bin": "h_tree", "mode": "c07"}],
+        "rule": "cases = random trees over 10 flavours (every 4th: source and target trees) with exhaustive index ranges when the level has <= 5000 indices, sampled otherwise; plus the enumerated occupancy slices of C07 (all block sizes, both modes) with exhaustive queries. non-trivial = N >= 2; distinct = tree signature.",
+        "require_events": ["lookup-queries", "lookup-hits"],
+        "assumptions": [],
+    },
+    "C17": {
+        "level": EXPL,
+        "technique": "runtime monitoring: differential oracle on getAllParticlesData/Rhs vs values read through applyToAllLeaves and the input array, under ASan + _GLIBCXX_ASSERTIONS",
+        "claim": "On every explored tree entry i of the bulk exports held the data / result values of the particle inserted at position i (1..7 data values, 0..4 result values, N below and above the number of values), before and after execute and rebuild, for source and target trees.",
+        "note": "Export arrays are typed RealType by the API; comparison is made after the same conversion.",
+        "jobs": [{"bin": "h_tree", "mode": "c17"}, {"bin": "h_tree", "mode": "c13"}],
+        "rule": "cases = random trees over 10 flavours, a third with N <= 5 (fewer particles than values), exports checked after build, after execute (distinct result rows), after rebuild; every 4th case target/source trees; plus every rebuild cycle of C13. non-trivial = N >= 2; distinct = tree signature.",
+        "require_events": ["export-entries-checked"],
         "assumptions": [],
     },
 }
